@@ -208,6 +208,15 @@ def cli_campaign(chk, tier, r):
             m = bytearray(img)
             m[off] = v
             muts.append(("hdr[%d]=%d" % (off, v), bytes(m)))
+    # a section table that is consistent in itself but lists fewer sections than rules.c reads (relocation entries dropped)
+    tab = [struct.unpack_from("<QI", img, 6 + 12 * i) for i in range(nbuf)]
+    for k in range(nbuf):
+        bodies = [img[o:o + sz] for o, sz in tab[:k]]
+        off, t = 6 + 12 * k, b""
+        for body in bodies:
+            t += struct.pack("<QI", off, len(body))
+            off += len(body)
+        muts.append(("sections=%d" % k, img[:5] + bytes([k]) + t + b"".join(bodies)))
     nviol, n = 0, 0
     for name, data in muts:
         f = d + "/m.yarc"
